@@ -165,7 +165,7 @@ impl Prop for C03 {
     }
 
     fn strategy(_leg: &str, tier: Tier) -> BoxedStrategy<Case> {
-        (gen::weighted_usize(tier.pick(12, 40)), gen::raw_sources())
+        (gen::weighted_usize_big_rate(tier.pick(12, 40), 60), gen::raw_sources())
             .prop_map(|((g, family), (raw, class))| {
                 let sources = gen::sources_from(&raw, class, g.order);
                 Case { g, sources, family }
